@@ -244,7 +244,7 @@ PROPS = {
     ),
     "C18": dict(
         src=[("props/c18.cpp", 1)], san="thread",
-        quick_cases=3, quick_rounds=2, thorough_cases=6, thorough_rounds=14, procs=16,
+        quick_cases=3, quick_rounds=2, thorough_cases=6, thorough_rounds=14, procs=16, case_timeout=1500,
         engines=["rapidcheck (workload generation)", "ThreadSanitizer (g++ -fsanitize=thread)"],
         rule="cases are thread workloads: 2..16 threads released together by a spin barrier, each running a generated list of 1..5 const operations (14 kinds: group / tangent / Bundle / Galilei functions, "
              "rplus/rminus/dof on shared const SubManifold, AnyManifold, std::vector and variant, Spline and BSpline evaluation, sparse derivatives into thread-private outputs, diff::dr, minimize, fit_spline/fit_bspline) "
